@@ -133,6 +133,8 @@ def build_config(run: dict[str, Any], wd: Path, world: dict[str, Any] | None) ->
         o["layout"] = out["layout"]
     if "skip_initial" in out:
         o["skip_initial"] = out["skip_initial"]
+    if out.get("ncargs"):
+        o["ncargs"] = dict(out["ncargs"])
     conf["output"] = o
 
     if run.get("warm_start"):
